@@ -14,7 +14,7 @@ Fixpoint height (p : pat) : nat :=
   | Place l _ _ => S (list_max (map (fun s => list_max (map height s)) l))
   | Pstutter a b | Pclump a b | Pflatten a b | Pbinop _ a b => S (Nat.max (height a) (height b))
   | Pwrap a b c | Pnarop _ a b c | Pif a b c => S (Nat.max (height a) (Nat.max (height b) (height c)))
-  | Pswitch l w | Pswitch1 l w | PseedRand w l _ | PseedXrand w l _ => S (Nat.max (height w) (list_max (map height l)))
+  | Pswitch l w | Pswitch1 l w | PseedRand w l _ | PseedXrand w l _ | PseedWrand w l _ _ => S (Nat.max (height w) (list_max (map height l)))
   | Pslide l a b _ _ _ => S (Nat.max (list_max (map height l)) (Nat.max (height a) (height b)))
   | PseedWhite a b c _ => S (Nat.max (height a) (Nat.max (height b) (height c)))
   end.
@@ -282,6 +282,12 @@ Proof.
       * destruct len as [n|]; [|discriminate]. right; right. exists (Z.to_nat n). split. reflexivity. lia.
       * left. apply S2. assumption. lia.
       * right; left. apply S3. assumption. lia.
+    + (* PseedWrand *) destruct r as [n|]; [|discriminate]. getgood IH p K L Hg.
+      destruct (items_K l) as [Ki Hi].
+      { intros q Hq. apply IH. cbn [height] in Hh. pose proof (list_max_in height l q Hq). lia. eapply forallb_forall; eauto. }
+      kcase (S (S (K + Ki + Z.to_nat n + 2))). useg Hg k 0%nat A Sh C. apply tseed_complete; [|apply C; assumption].
+      intros z K0 HK0. destruct l as [|q0 l']. apply complete_err.
+      apply trand_complete; try assumption. intros q Hq. apply Hi. lia. exact Hq. lia.
 Qed.
 
 Theorem finite_complete : forall p, finp p = true -> nvb p = true ->
